@@ -4,6 +4,10 @@ import json, os
 HERE = os.path.dirname(os.path.dirname(os.path.abspath(__file__)))
 
 CHECKS = {
+ 'C17': dict(level='fault_enumeration', ref='3/C17',
+   technique='exception-fault enumeration: every concrete builtin exception class (canonical arguments) and 15 generated user-class shapes injected at a sampled site (body, __init__, __new__, evaluated reference, macro-held reference, singleton constructor, scoped wrapper) and nesting depth 1-4; caught object compared with the original',
+   text='Each run fixes a site / depth / scope plan and injects the whole catalogue there (82 classes); the caught object must be of the original class (and caught by every base), have equal args and every public non-callable attribute, a traceback containing the raising frame and every intermediate configurable frame, and a message that starts with the original and names every configurable level innermost-first with its active scope; non-Exception BaseExceptions must arrive as the identical object. Exhaustive over the catalogue per plan; plans are sampled (7 sites x depth 1-4 x scopes x callable kinds).',
+   note='CPython 3.12 builtin exception classes; repr() of the caught object is not compared (the property names attributes, not repr).'),
  'C14': dict(level='fault_enumeration', ref='3/C14',
    technique='simulated storage behind gin\'s reader/search-path seam (in-memory VFS readers + real scratch dir + real package dirs) with missing-file / open-failure / existence-check-failure injected at every include position, heal-and-reparse, and a resolution model + flattened-text twin world as oracle',
    text='For each sampled world (file DAG with repeated/diamond includes, ordered locations x readers with each file present in a drawn subset of cells under distinct tagged content) the fault-free parse, the multi-file entry point and one fault scenario per include position and per file are executed; the store must equal the parse of the model-flattened text, the returned tree the model tree, unreadable names an IOError naming file and locations with exactly the preceding statements applied, and a re-parse after healing must succeed. Exhaustive over fault positions per world; worlds are sampled.',
